@@ -406,3 +406,40 @@ N("u-n-str-early", U, """        if self._simplified_form is not None:
         if simplified is None:
             return "||".join([str(r) for r in self.ranges])
         return simplified""", props=["C06"])
+M("b-g10-regress", SG, """                and pkg_spec.operator != "~="
+                and "*" not in pkg_version
+""", "", fire=["C11", "C02"])
+# equivalent on python_version candidates X.Y (==X.Y.0.0 admits exactly X.Y): must stay silent
+N("b-n-get-spec-wild", SG, """                    if self.name == "python_version":
+                        splitted.append("*")""", """                    if self.name == "python_full_version":
+                        splitted.append("*")""", props=["C11"])
+M("b-from-spec-any", SG, """        if specifier.is_any():
+            return AnyMarker()
+        if specifier.is_empty():
+            return EmptyMarker()""", """        if specifier.is_any():
+            return EmptyMarker()
+        if specifier.is_empty():
+            return AnyMarker()""", fire=["C11", "C02"])
+M("b-version-like", SG, """        "python_full_version",
+        "platform_release",
+    }""", """        "platform_release",
+    }""", fire=["C11"])
+M("b-get-spec-glue", SG, """op, glue = ("==", "||") if self.op == "in" else ("!=", ",")""", """op, glue = ("==", "||") if self.op == "not in" else ("!=", ",")""", fire=["C11"])
+M("i-except-removed", SI, """    try:
+        pkg_spec = SpecifierSet(spec)
+    except PkgInvalidSpecifier as e:
+        raise InvalidSpecifier(str(e)) from e
+    else:
+        return from_specifierset(pkg_spec)""", """    pkg_spec = SpecifierSet(spec)
+    return from_specifierset(pkg_spec)""", fire=["C17"])
+M("i-op-removed", SI, """    elif op == "===":
+        return ArbitrarySpecifier(target=version)
+""", "", fire=["C17"])
+M("i-g6-regress", SI, """        min = Version(version)
+        _, max = _prefix_bounds(min.epoch, min.release[:-1])""", """        min = Version(version)
+        _, max = _prefix_bounds(0, tuple(int(x) for x in version.split(".")[:-1]))""", fire=["C17"])
+N("i-n-prefix-inline", SI, """    head = f"{epoch}!" if epoch else ""
+""", """    head = ""
+    if epoch:
+        head = str(epoch) + "!"
+""", props=["C17", "C04", "C01"])
